@@ -265,7 +265,11 @@ func genRobust(t *rapid.T, proto string, envs map[string]*wire.GenEnv, amplify b
 					if f := d.Samples[si].Flow; f != nil {
 						for ri := range f.Recs {
 							if f.Recs[ri].Raw != nil {
-								wire.WeirdL4(t, &f.Recs[ri].Raw.Pkt)
+								if rapid.IntRange(0, 3).Draw(t, "weirdl2") == 0 {
+									wire.WeirdL2(t, &f.Recs[ri].Raw.Pkt)
+								} else {
+									wire.WeirdL4(t, &f.Recs[ri].Raw.Pkt)
+								}
 								note = "weird-l4"
 							}
 						}
